@@ -8,6 +8,9 @@ CONSTANTS
  ResetInTransition = TRUE
  ResetBeforeWindow = FALSE
  StrobeInTransition = TRUE
+ PartialOutcomes = TRUE
+ ShallowChangeTest = FALSE
+ CacheFromPoller = FALSE
  FixLevel = 2
  MaxLen = 8
  MaxP = 2
@@ -15,5 +18,5 @@ CONSTANTS
  MaxW = 2
  Modes = {"sched", "fine"}
 SPECIFICATION SSpec
-INVARIANTS Export TypeOK NoStaleClock NoStaleObs NoticedInv
+INVARIANTS Export TypeOK NoStaleClock NoStaleObs NoticedInv NoOverwrite
 CHECK_DEADLOCK FALSE
